@@ -4,7 +4,7 @@ import json, os, shutil, subprocess, sys
 pid = sys.argv[1]; extra = sys.argv[2:] 
 HERE = os.path.dirname(os.path.abspath(__file__))
 prop = {json.loads(l)["id"]: json.loads(l) for l in open(os.path.join(HERE, "properties.jsonl"))}[pid]
-for k in (1, 2):
+for k in (1, 2, 3, 4, 5, 6):
     src = f"/tmp/seed-out/{pid}"
     if not os.path.exists(f"{src}/change{k}.diff"):
         continue
